@@ -15,13 +15,11 @@ symbolic reasoning about the spaces in which finite elements lie.
 # Modified by Lizao Li 2015
 # Modified by Thomas Gibson 2017
 
-from functools import total_ordering
 from math import inf, isinf
 
 __all_classes__ = ["SobolevSpace", "DirectionalSobolevSpace"]
 
 
-@total_ordering
 class SobolevSpace:
     """Symbolic representation of a Sobolev space.
 
@@ -91,8 +89,19 @@ class SobolevSpace:
         """In common with intrinsic Python sets, < indicates "is a proper subset of"."""
         return other in self.parents
 
+    def __le__(self, other):
+        """In common with intrinsic Python sets, <= indicates "is a subset of"."""
+        return self == other or self < other
 
-@total_ordering
+    def __gt__(self, other):
+        """In common with intrinsic Python sets, > indicates "is a proper superset of"."""
+        return other.__lt__(self)
+
+    def __ge__(self, other):
+        """In common with intrinsic Python sets, >= indicates "is a superset of"."""
+        return other.__le__(self)
+
+
 class DirectionalSobolevSpace(SobolevSpace):
     """Directional Sobolev space.
 
@@ -136,7 +145,7 @@ class DirectionalSobolevSpace(SobolevSpace):
                 "Did you mean to use <= instead?"
             )
         return other.sobolev_space == self or all(
-            self[i] in other.sobolev_space.parents for i in self._spatial_indices
+            other.sobolev_space <= self[i] for i in self._spatial_indices
         )
 
     def __eq__(self, other):
@@ -145,20 +154,31 @@ class DirectionalSobolevSpace(SobolevSpace):
             return self._orders == other._orders
         return all(self[i] == other for i in self._spatial_indices)
 
+    def __hash__(self):
+        """Hash."""
+        return hash(("DirectionalSobolevSpace", self._orders))
+
     def __lt__(self, other):
         """In common with intrinsic Python sets, < indicates "is a proper subset of."""
         if isinstance(other, DirectionalSobolevSpace):
             if self._spatial_indices != other._spatial_indices:
                 return False
-            return any(self._orders[i] > other._orders[i] for i in self._spatial_indices)
+            return self._orders != other._orders and all(
+                self._orders[i] >= other._orders[i] for i in self._spatial_indices
+            )
 
-        if other in [HDiv, HCurl]:
-            return all(self._orders[i] >= 1 for i in self._spatial_indices)
-        elif other.name in ["HDivDiv", "HEin", "HCurlDiv"]:
+        if other.name in ["HDivDiv", "HEin", "HCurlDiv"]:
             # Don't know how these spaces compare
-            return NotImplementedError(f"Don't know how to compare with {other.name}")
-        else:
-            return any(self._orders[i] > other._order for i in self._spatial_indices)
+            raise NotImplementedError(f"Don't know how to compare with {other.name}")
+        # This space is contained in the isotropic space of its lowest order
+        return self != other and self[self._orders.index(min(self._orders))] <= other
+
+    def __gt__(self, other):
+        """In common with intrinsic Python sets, > indicates "is a proper superset of"."""
+        if isinstance(other, DirectionalSobolevSpace):
+            return other < self
+        # This space contains the isotropic space of its highest order
+        return self != other and other._order >= max(self._orders)
 
     def __str__(self):
         """Format as a string."""
